@@ -55,9 +55,9 @@ class Ctx:
     def bad(self, rule, key, node_or_loc, detail=''):
         self.obs.append(Ob(rule, key, False, _loc(node_or_loc), detail))
 
-    def check(self, cond, rule, key, node_or_loc, ok_detail='', bad_detail=''):
+    def check(self, cond, rule, key, node_or_loc, ok_detail='', bad_detail='', nontrivial=True):
         if cond:
-            self.ok(rule, key, node_or_loc, ok_detail)
+            self.ok(rule, key, node_or_loc, ok_detail, nontrivial)
         else:
             self.bad(rule, key, node_or_loc, bad_detail or ok_detail)
         return cond
